@@ -272,6 +272,7 @@ type runner struct {
 	pool service.TransactionPool
 	tags map[string]int // generator tag -> count
 	res  map[string]int // tag/verdict -> count
+	addrViol []string   // keys whose GetAddress differs from the reference address
 }
 
 func (rn *runner) vt(tag string, c chainCfg, height uint64, tx *types.Transaction) string {
@@ -286,6 +287,23 @@ func (rn *runner) vt(tag string, c chainCfg, height uint64, tx *types.Transactio
 	r := rn.out.Do(line, func() string { return verdict(rn.pool.VerifyTransaction(cloneTx(tx), height)) })
 	rn.tags[tag]++
 	rn.res[tag+"/"+r]++
+	return r
+}
+
+// addr: PublicKey.GetAddress of the real code on a 65-byte key vs the model's padded derivation.
+func (rn *runner) addr(tag string, pk []byte) string {
+	o := newOracle()
+	if len(pk) == 65 {
+		o.kec(pk[1:])
+	}
+	line := "addr " + hx.Hex(pk) + o.String()
+	r := rn.out.Do(line, func() string {
+		return hexS(common.BytesToPublicKey(pk).GetAddress().GetHexString())
+	})
+	rn.tags[tag]++
+	if len(pk) == 65 && r != hexS("0x"+hx.Hex(refKeccak(pk[1:])[12:])) {
+		rn.addrViol = append(rn.addrViol, hx.Hex(pk))
+	}
 	return r
 }
 
@@ -371,9 +389,9 @@ var nativeTypes = []int32{0, 1, 2, 3, 7, 99, 100, 187, 189, 200, 600, -1, -188, 
 // Hash = GenHash(), Sign = PrivateKey.Sign(Hash).
 func (g gen) honestNative(k *ecdsa.PrivateKey, chainId string) *types.Transaction {
 	nk := nativeKey(k)
-	pub := nk.GetPubKey()
 	tx := &types.Transaction{
-		Source:    pub.GetAddress().GetHexString(),
+		// the sender's address by definition (independent reference), not whatever GetAddress returns
+		Source:    refAddress(&k.PublicKey),
 		Target:    g.str(),
 		Type:      nativeTypes[g.r.Intn(len(nativeTypes))],
 		Time:      g.str(),
@@ -960,6 +978,10 @@ func main() {
 	}
 	runCorpus(rn)
 	g := gen{hx.NewRng(hx.SeedFromEnv())}
+	pool2 := newKeyPool(g.r.Fork())
+	for _, k := range pool2.all() {
+		rn.addr("addr-boundary-key", pubBytes(&k.PublicKey))
+	}
 	n := hx.ArgInt(a, "n", 40)
 	for i := 0; i < n; i++ {
 		c := cfgs[i%len(cfgs)]
@@ -971,7 +993,8 @@ func main() {
 			height = c.p001 - 1 - uint64(g.r.Intn(2))
 		}
 		c.apply()
-		k := g.key()
+		k := g.keyFrom(pool2)
+		rn.addr("addr-key", pubBytes(&k.PublicKey))
 		// native
 		cid := common.ChainId(height)
 		other := c.orig
@@ -985,6 +1008,16 @@ func main() {
 		rn.vt("native-honest", c, height, tx)
 		for _, m := range g.nativeMutants(tx, other) {
 			rn.vt("native-mut-"+m.field, c, height, m.tx)
+		}
+		for _, class := range []string{"hash0", "short-r", "short-s"} {
+			if ct := g.honestNativeClass(k, cid, class); ct != nil {
+				rn.vt("native-honest-"+class, c, height, ct)
+				rn.vt("native-"+class+"-twin", c, height, func() *types.Transaction { m := cloneTx(ct); m.Sign = malleate(ct.Sign); return m }())
+				rn.vt("native-"+class+"-alias", c, height, func() *types.Transaction { m := cloneTx(ct); m.Sign = recidAlias(ct.Sign); return m }())
+			}
+		}
+		if wa := g.wrongAddressTx(k, cid); wa != nil {
+			rn.vt("native-unpadded-address", c, height, wa)
 		}
 		if bs := boundaryShift(tx); bs != nil {
 			rn.vt("native-boundary-shift", c, height, bs)
@@ -1042,6 +1075,8 @@ func main() {
 	st["generators"] = rn.tags
 	st["generator_results"] = rn.res
 	st["selfcheck_fail"] = selfcheckFail
+	st["key_pool"] = pool2.stats
+	st["address_differs_from_reference"] = rn.addrViol
 	b, _ := json.Marshal(st)
 	fmt.Println("STATS " + string(b))
 	if selfcheckFail > 0 {
